@@ -151,6 +151,11 @@ func bigNumberCases() [][2]bson.D {
 				[2]bson.D{e("a", bson.A{dv, int32(1)}), e("a", e("$all", bson.A{qv, int32(1), qv}))})
 		}
 	}
+	// $all whose members are met partly by elements and partly by the whole array
+	out = append(out, [2]bson.D{e("c", bson.A{int64(12), nil, false}), e("c", e("$all", bson.A{int64(12), bson.A{int64(12), nil, false}}))},
+		[2]bson.D{e("c", bson.A{int64(12), nil, false}), e("c", e("$all", bson.A{bson.A{int64(12), nil, false}}))},
+		[2]bson.D{e("c", bson.A{int64(12), nil, false}), e("c", e("$all", bson.A{bson.A{int64(12), nil, false}, int32(13)}))},
+		[2]bson.D{e("c", bson.A{bson.A{int32(1)}, int32(2)}), e("c", e("$all", bson.A{bson.A{int32(1)}, bson.A{bson.A{int32(1)}, int32(2)}}))})
 	// $all with members listed twice, also through a fan-out path
 	for _, d := range []bson.D{e("a", bson.A{int32(1), int32(2)}), e("a", bson.A{int32(1)}), e("a", int32(1)), e("a", bson.A{})} {
 		for _, l := range []bson.A{{int32(1), int32(2), int32(1)}, {int32(1), int32(1)}, {int32(2), int32(1), int32(2), int32(1)}, {int32(1), int32(1), int32(3)}} {
